@@ -4,6 +4,8 @@ package c07len
 
 import (
 	"bytes"
+	"crypto/aes"
+	"crypto/cipher"
 	"errors"
 	"reflect"
 	"strings"
@@ -370,4 +372,100 @@ func GoodUTCDayStep(t time.Time) time.Time {
 		u = u.AddDate(0, 0, 1)
 	}
 	return u
+}
+
+// ---- N6 step progress: the guard must hold when the step stalls (post == pre)
+
+func BadGuardBefore(t time.Time) time.Time {
+	for !wantedDay(t) {
+		prev := t
+		t = t.AddDate(0, 0, 1)
+		if t.Before(prev) { // false when the step lands exactly on prev
+			t = prev.Add(24 * time.Hour)
+		}
+	}
+	return t
+}
+
+func BadGuardSubNegative(t time.Time) time.Time {
+	for !wantedDay(t) {
+		prev := t
+		t = t.AddDate(0, 0, 1)
+		if t.Sub(prev) < 0 {
+			return time.Time{}
+		}
+	}
+	return t
+}
+
+func GoodGuardNotAfter(t time.Time) time.Time {
+	for !wantedDay(t) {
+		prev := t
+		t = t.AddDate(0, 0, 1)
+		if !t.After(prev) {
+			t = prev.Add(24 * time.Hour)
+		}
+	}
+	return t
+}
+
+func GoodGuardCompare(t time.Time) time.Time {
+	for !wantedDay(t) {
+		prev := t
+		t = t.AddDate(0, 0, 1)
+		if t.Compare(prev) <= 0 || t.Equal(prev) {
+			return time.Time{}
+		}
+	}
+	return t
+}
+
+// ---- N5 AEAD nonce
+
+var errNonce = errors.New("nonce")
+
+func gcmLoose(key, nonce []byte) (cipher.AEAD, error) {
+	if len(nonce) != 12 && len(nonce) != 16 {
+		return nil, errNonce
+	}
+	blk, err := aes.NewCipher(key)
+	if err != nil {
+		return nil, err
+	}
+	return cipher.NewGCM(blk)
+}
+
+func BadAEADNonceLoose(key, nonce, msg []byte) ([]byte, error) {
+	aead, err := gcmLoose(key, nonce)
+	if err != nil {
+		return nil, err
+	}
+	return aead.Seal(nil, nonce, msg, nil), nil
+}
+
+func gcmStrict(key, nonce []byte) (aead cipher.AEAD, err error) {
+	blk, err := aes.NewCipher(key)
+	if err != nil {
+		return nil, err
+	}
+	aead, err = cipher.NewGCM(blk)
+	if err == nil && len(nonce) != 12 {
+		err = errNonce
+	}
+	return
+}
+
+func GoodAEADNonceStrict(key, nonce, msg []byte) ([]byte, error) {
+	aead, err := gcmStrict(key, nonce)
+	if err != nil {
+		return nil, err
+	}
+	return aead.Open(nil, nonce, msg, nil)
+}
+
+func GoodAEADNonceSize(aead cipher.AEAD, nonce, msg []byte) ([]byte, error) {
+	if len(nonce) != aead.NonceSize() {
+		return nil, errNonce
+	}
+	return aead.Seal(nil, nonce, msg, nil), nil
 }
